@@ -495,10 +495,25 @@ func (s *netSim) conflictScenario(t NetTx) {
 	r := s.r
 	bc := r.P.BC
 	a := r.prod.kr.acct(t.Op.A)
-	if mtb := bc.GetMaxTraceableBlocks(); t.Op.Y%2 == 1 && mtb <= 12 &&
-		s.now()+time.Duration(mtb+4)*blockTimeMS*time.Millisecond < time.Duration(s.np.DurationMS)*time.Millisecond {
-		s.staleConflictScenario(t, mtb)
-		return
+	if mtb := bc.GetMaxTraceableBlocks(); t.Op.Y%2 == 1 && mtb <= 12 {
+		// not before the accounts are funded, and early enough for the traceable window to pass within the run
+		start := max(s.now(), 2500*time.Millisecond)
+		if start+time.Duration(mtb+4)*blockTimeMS*time.Millisecond < time.Duration(s.np.DurationMS)*time.Millisecond {
+			var try func()
+			try = func() {
+				funded := bc.GetUtilityTokenBalance(a.ScriptHash(), util.Uint160{}).Sign() > 0 &&
+					bc.GetUtilityTokenBalance(r.prod.kr.acctHash(t.Op.A+1), util.Uint160{}).Sign() > 0
+				if !funded && s.now()+time.Duration(mtb+5)*blockTimeMS*time.Millisecond < time.Duration(s.np.DurationMS)*time.Millisecond {
+					s.at(s.now()+blockTimeMS*time.Millisecond, try)
+					return
+				}
+				if funded {
+					s.staleConflictScenario(t, mtb)
+				}
+			}
+			s.at(start, try)
+			return
+		}
 	}
 	nv := 2 + t.Op.X%2
 	var victims []*transaction.Transaction
@@ -560,6 +575,7 @@ func (s *netSim) staleConflictScenario(t NetTx, mtb uint32) {
 	inc := bc.GetMaxValidUntilBlockIncrement()
 	n1 := mk(other, 3, h0+min(inc, 3))
 	s.conflictVictims[victim.Hash()] = append(s.conflictVictims[victim.Hash()], n1.Hash())
+	s.namers[n1.Hash()] = true
 	r.out.Faults["defective_tx/named-by-on-chain-conflicts"]++
 	r.out.Probes["stale_conflict_scenario"]++
 	r.log.Addf("t=%dms client: two transactions will name one victim at different heights (MaxTraceableBlocks %d)", s.now()/time.Millisecond, mtb)
@@ -568,6 +584,7 @@ func (s *netSim) staleConflictScenario(t NetTx, mtb uint32) {
 		h := r.P.BC.BlockHeight()
 		n2 := mk(a, 4, h+min(inc, 3))
 		s.conflictVictims[victim.Hash()] = append(s.conflictVictims[victim.Hash()], n2.Hash())
+		s.namers[n2.Hash()] = true
 		s.sendToTargets(n2, 0xff)
 	})
 	for _, d := range []uint32{mtb + 1, mtb + 2} {
